@@ -217,10 +217,14 @@ class ParallelJob:
 
 
 def _mpi_root_task(
-    iterable: Iterable, ranks: Iterable[int], comm: Comm = COMM
+    iterable: Iterable,
+    ranks: Iterable[int],
+    comm: Comm = COMM,
+    func: ParallelJob | None = None,
 ) -> Iterator:
     """On the root rank, send the job arguments to the remaining ranks and
-    collect the results in an iterator."""
+    collect the results in an iterator. If there are no worker ranks, run the
+    jobs with ``func`` on the root rank itself."""
     # first pass of assigning tasks to workers dynamically
     active_workers = 0
     for rank in range(1, get_size()):
@@ -231,6 +235,11 @@ def _mpi_root_task(
         except (AssertionError, StopIteration):
             # shut down any unused workers
             comm.send(EndOfQueue, dest=rank, tag=1)
+
+    if active_workers == 0 and func is not None:
+        # no worker ranks available (e.g. max_workers=1), nobody else will run jobs
+        yield from map(func, iterable)
+        return
 
     # yield results from workers and send new tasks until all have been processed
     while active_workers > 0:
@@ -272,12 +281,13 @@ def _mpi_iter_unordered(
     Additionally, specify if the function expects the the positional arguments
     as a single tuple or unpacked.
     """
+    wrapped_func = ParallelJob(func, func_args, func_kwargs, unpack=unpack)
+
     if on_root():
         iterable = iter(iterable)
-        yield from _mpi_root_task(iterable, ranks, comm=comm)
+        yield from _mpi_root_task(iterable, ranks, comm=comm, func=wrapped_func)
 
     else:
-        wrapped_func = ParallelJob(func, func_args, func_kwargs, unpack=unpack)
         _mpi_worker_task(wrapped_func, comm=comm)
 
     comm.Barrier()
